@@ -31,7 +31,7 @@ fn valid_config(installed: bool) -> String {
 fn mutate(ctx: &mut Ctx, m: &[u8], other: &[u8]) -> (Vec<u8>, String) {
     let big = if ctx.tier == Tier::Thorough { 4 << 20 } else { 64 << 10 };
     let n = m.len().max(1);
-    match ctx.pick(16) {
+    match ctx.pick(18) {
         0 => {
             let at = ctx.pick(n + 1);
             (m[..at.min(m.len())].to_vec(), format!("truncate@{at}"))
@@ -113,6 +113,17 @@ fn mutate(ctx: &mut Ctx, m: &[u8], other: &[u8]) -> (Vec<u8>, String) {
             let s = String::from_utf8_lossy(m).into_owned();
             (format!("{s}{s}").into_bytes(), "message twice (two roots)".into())
         }
+        16 => {
+            // a perfectly valid reply whose message-id matches no outstanding request
+            let id = *ctx.tape.choose(&["7777", "0", "18446744073709551615", "4242"]);
+            let s = String::from_utf8_lossy(m).into_owned();
+            let s = match (s.find("message-id=\""), s.find("message-id=\"").and_then(|i| s[i + 12..].find('"').map(|j| i + 12 + j))) {
+                (Some(i), Some(j)) => format!("{}{id}{}", &s[..i + 12], &s[j..]),
+                _ => s,
+            };
+            (s.into_bytes(), "valid reply with an unknown message-id".into())
+        }
+        17 => (m.to_vec(), "unmodified (control)".into()),
         14 => {
             let s = String::from_utf8_lossy(m).replace('>', " junk=\"1\" junk=\"2\">");
             (s.into_bytes(), "duplicate attributes everywhere".into())
